@@ -163,6 +163,11 @@ def run_check(chk, tier, replay=None):
                 broken.append({"file": "Gen/Generated.v", "theorem": "(table %s could not be extracted from the current source: %s; the reference table "
                                "of the pinned tree was used, so this property is no longer tied to the source through it)" % (t, m.get("reason")),
                                "assumptions": "", "ok": False})
+    for g in binfo.get("gencheck_failed", []):
+        hit = not g["tables"] or any(chk.pid in TABLE_PROPS.get(t, []) for t in g["tables"])
+        if hit:
+            broken.append({"file": "Gen/GenCheck.v", "theorem": "%s (side condition tying the generated table%s %s to the model no longer holds: %s)"
+                           % (g["lemma"], "s" if len(g["tables"]) != 1 else "", ", ".join(g["tables"]) or "?", g["error"]), "assumptions": "", "ok": False})
     if not binfo["coq_ok"]:
         # a file that no longer compiles breaks the obligations of the properties whose theorem files
         # depend on it (everything, for a file of the model itself); the model binary is then stale,
